@@ -5,7 +5,8 @@ import random
 import sys
 import threading
 
-sys.path.insert(0, sys.argv[4] if len(sys.argv) > 4 else "/verif")
+if __name__ == "__main__":
+    sys.path.insert(0, sys.argv[4] if len(sys.argv) > 4 else "/verif")
 
 
 def scribble(*graphs):
@@ -103,8 +104,11 @@ def main():
         for i in idx:
             vals = {out[t].get(i) for t in range(nthreads)}
             res[i] = out[0][i] if len(vals) == 1 else "DIVERGED " + json.dumps(sorted(map(str, vals)))[:2000]
-    import tucan.parser.tucanParser as TP
-    dfa_states = sum(len(d.states) for d in TP.tucanParser.decisionsToDFA)
+    try:  # a statistic only (how far the shared prediction cache was filled)
+        import tucan.parser.tucanParser as TP
+        dfa_states = sum(len(d.states) for d in TP.tucanParser.decisionsToDFA)
+    except Exception:
+        dfa_states = -1
     print(json.dumps({"results": [res[i] for i in range(len(ops))], "dfa_states": dfa_states}))
 
 
